@@ -146,6 +146,42 @@ def crystal_descs(draw, sgs=None, max_orbits=3, force_letters=None, anchor=None,
     return {"sg": sg, "orbits": orbits, "raw": raw}
 
 
+@functools.lru_cache(maxsize=None)
+def partner_classes():
+    """groups -> lists of special letters with free parameters that share (multiplicity, degrees of freedom): candidates for
+    being exchanged by a normalizer (computed from the catalogue only, independent of MatID's normalizer table)."""
+    out = {}
+    for sg in range(1, 231):
+        cls = {}
+        for l in letters(sg)[:-1]:
+            if dof(sg, l) > 0:
+                cls.setdefault((mult(sg, l), dof(sg, l)), []).append(l)
+        good = [v for v in cls.values() if len(v) >= 2]
+        if good:
+            out[sg] = good
+    return out
+
+
+@st.composite
+def shared_letter_descs(draw):
+    """Two different species on ONE Wyckoff letter plus a third species on a candidate partner letter, in a drawn orbit order:
+    the normal form must count atoms per (letter, species), whatever order the atoms are listed in."""
+    pc = partner_classes()
+    sg = draw(st.sampled_from(sorted(pc)))
+    cl = draw(st.sampled_from(pc[sg]))
+    l1 = draw(st.sampled_from(cl))
+    l2 = draw(st.sampled_from([l for l in cl if l != l1]))
+    zs = sorted(draw(st.lists(st.sampled_from(SPECIES), min_size=3, max_size=3, unique=True)))
+    roles = draw(st.permutations([(l1, zs[0]), (l1, zs[2]), (l2, zs[1])]))
+    if draw(st.booleans()):
+        roles = list(roles) + [(letters(sg)[-1], draw(st.sampled_from(SPECIES)))]
+    orbits = []
+    for k, (l, z) in enumerate(roles):
+        orbits.append({"letter": l, "q": [gc.generic(draw, 3 * k + j, 0.05, 0.95) for j in range(3)], "Z": int(z)})
+    raw = [gc.generic(draw, 17 + j, 3.5, 9.0) for j in range(3)] + [gc.generic(draw, 20 + j, 75.0, 105.0) for j in range(3)]
+    return {"sg": sg, "orbits": orbits, "raw": raw}
+
+
 # ---------------------------------------------------------------------------------------------------------------
 # construction
 # ---------------------------------------------------------------------------------------------------------------
